@@ -93,6 +93,22 @@ static void ser(Janet x, int depth) {
     }
 }
 
+/* addresses of the tuple / struct objects of a value, in the preorder of `ser` (a struct: its slots key, value, …, then its
+   prototype): what janet_equals' pointer short-cuts `t1 == t2` / `s1 == s2` look at (model: Value/PtrShortcut.lean) */
+static void ser_addrs(Janet x, int depth) {
+    if (depth > 400) return;
+    if (janet_checktype(x, JANET_TUPLE)) {
+        const Janet *t = janet_unwrap_tuple(x);
+        printf(" %" PRIx64, (uint64_t) (uintptr_t) t);
+        for (int32_t i = 0; i < janet_tuple_length(t); i++) ser_addrs(t[i], depth + 1);
+    } else if (janet_checktype(x, JANET_STRUCT)) {
+        const JanetKV *st = janet_unwrap_struct(x);
+        printf(" %" PRIx64, (uint64_t) (uintptr_t) st);
+        for (int32_t i = 0; i < janet_struct_capacity(st); i++) { ser_addrs(st[i].key, depth + 1); ser_addrs(st[i].value, depth + 1); }
+        if (janet_struct_proto(st)) ser_addrs(janet_wrap_struct(janet_struct_proto(st)), depth + 1);
+    }
+}
+
 /* internal-state checks on every struct / tuple reachable from a pool value: stored hash and length fields */
 static long nviol = 0;
 static void law(const char *name, long i, long j, long k, const char *detail) {
@@ -253,6 +269,7 @@ static int run_pool(const char *path) {
         printf("meta %d hash %d model %d nan %d amodel %d", i, hs[i], unsupported ? 0 : 1, has_nan, (has_abs && !too_deep) ? 1 : 0);
         if (janet_checktype(pool->data[i], JANET_STRUCT)) printf(" len %d", janet_struct_length(janet_unwrap_struct(pool->data[i])));
         putchar('\n');
+        if (!too_deep) { printf("adr %d", i); ser_addrs(pool->data[i], 0); putchar('\n'); }
         check_fields(pool->data[i], i, 0);
         /* (hash x) at the language level */
         Janet hv; JanetFiber *fib = NULL;
